@@ -46,6 +46,8 @@ def enum_cases(tier, seed):
     hi = 9 if tier == "quick" else 12
     for p, s in util.spelled_patterns(1, hi, seed):
         yield {"seq": s}
+        if 5 <= len(s) <= (8 if tier == "quick" else 10):
+            yield {"seq": s, "warm": [["get_kappa", None]]}          # the same object has already cached its delta-max
 
 
 @st.composite
